@@ -341,7 +341,66 @@ def job_getitem_slice(chk, tname, nones, dname, sg):
         for nm, pc, cond in p.obligations:
             chk.obligation(f"{base}/{nm}/path={k}", "pre@callsite", _vc_thunk(pc, cond, 30), function=fn,
                            key=f"C01/{fn}/pre@callsite")
+        if chk.tier == "thorough":
+            o = chk.obligation(f"{base}/xcheck-vs-cpython/path={k}", "cover",
+                               _xcheck_thunk(tname, p.pc, nones, sv, rt, p.value if p.outcome == "raise" else None), function=fn)
+            chk.cross_checks += 1
     _note_inline(chk, eng)
+
+
+def _xcheck_thunk(tname, pc, nones, v_tuple_sym, rt_sym, raises_kind):
+    """encoding cross-check against CPython: take a model of the path condition, run the *real* code on those concrete
+    arguments and compare its outcome with the symbolic outcome evaluated under the model (thorough tier)"""
+    from pyvc import smt as _smt
+    pc = list(pc)
+    text = _smt.to_smt2(pc, _smt.guess_logic(pc))
+
+    def ev(term, model):
+        if not isinstance(term, z3.ExprRef):
+            return term
+        subs = []
+        for nm, val in model.items():
+            if isinstance(val, bool):
+                subs.append((z3.Bool(nm), z3.BoolVal(val)))
+            elif isinstance(val, int):
+                subs.append((z3.Int(nm), z3.IntVal(val)))
+        r = z3.simplify(z3.substitute(term, *subs))
+        return r.as_long() if z3.is_int_value(r) else None
+
+    def thunk():
+        status, backend, secs, model, raw = _smt.portfolio(text, 20)
+        if status != "sat" or model is None:
+            return "proved", backend, secs, None, f"path not cross-checked ({status})"
+        L, s_, e_, st_, off_ = (model.get(k, d) for k, d in (("vL", 0), ("vstart", 0), ("vstop", 0), ("vstep", 1), ("voff", 0)))
+        if not S.inv(s_, e_, st_, L) or off_ < 0:
+            return "proved", backend, secs, None, "model outside inv (solver default values)"
+        view, parent = native_view(tname, L, s_, e_, st_, off_)
+        if native_tuple(view)[:3] != (s_, e_, st_):
+            return "proved", backend, secs, None, "constructor normalised the state"
+        a = None if nones[0] else model.get("a", 0)
+        b = None if nones[1] else model.get("b", 0)
+        c = None if nones[2] else model.get("c", 1)
+        try:
+            r = view[a:b:c]
+            native = ("return", len(r), (r.start if r.step > 0 else r.seq_len + r.start) if len(r) else None, r.step if len(r) else None)
+        except Exception as ex:
+            native = ("raise", type(ex).__name__)
+        if rt_sym is None:
+            symbolic = ("raise", raises_kind)
+            ok = native[0] == "raise" and native[1] == raises_kind
+        else:
+            vals = [ev(t, model) for t in rt_sym]
+            if any(x is None for x in vals):
+                return "proved", backend, secs, None, "symbolic result not fully determined by the model"
+            s1, e1, st1, off1, L1 = vals
+            n1 = S.view_len(s1, e1, st1) if st1 != 0 else -1
+            symbolic = ("return", n1, (s1 if st1 > 0 else L1 + s1) if n1 else None, st1 if n1 else None)
+            ok = native == symbolic
+        if not ok:
+            return ("error", backend, secs, model,
+                    f"ENCODING MISMATCH on {tname}(L={L},{s_},{e_},{st_})[{a}:{b}:{c}]: CPython {native}, symbolic {symbolic}")
+        return "proved", backend + " + CPython", secs, None, f"native outcome {native} == symbolic outcome"
+    return thunk
 
 
 def _note_inline(chk, eng):
